@@ -443,8 +443,17 @@ class Codec(Engine):
         return model
 
     def oracle(self, case, impl):
-        if not case.ops or case.ops[-1] != 'done':
+        if not case.ops:
             return None
+        if case.ops[-1] != 'done':
+            # a shrunk stream lost its tail: evaluate the property on the completed round trip
+            # (open, the remaining entries, close, read everything back)
+            if not case.ops[0].startswith('open ') or not any(o.startswith('ent ') for o in case.ops):
+                return None
+            ents = [o for o in case.ops if o.startswith('ent ')]
+            full = Case('completed', [case.ops[0]] + ents + ['close'] + [f'rd {i}' for i in range(len(ents) + 1)] + ['done'])
+            out, _ = self.run_impl(self.build(), [full])
+            case, impl = full, out[0]
         k = ('\n'.join(case.ops), '\n'.join(impl))
         cache = getattr(self, '_cache', {})
         v = cache.get(k)
